@@ -15,7 +15,7 @@ EXTENDS Integers, Sequences, FiniteSets, TLC, Json
 
 CONSTANTS MaxTests
 
-Kinds == <<"pass", "assertfail", "throwdeep", "typeerr", "leftover", "passblocks", "passcall">>
+Kinds == <<"pass", "assertfail", "throwdeep", "typeerr", "leftover", "passblocks", "passcall", "asserthelper">>
 Intrinsic(k) == IF k \in {"pass", "passblocks", "passcall"} THEN "pass" ELSE "fail"
 \* what a body of this kind leaves on the stack when it stops
 Residue(k) ==
@@ -24,6 +24,7 @@ Residue(k) ==
     [] k = "typeerr"    -> "values"
     [] k = "throwdeep"  -> "frames+blocks"   \* stopped three frames deep inside nested blocks
     [] k = "leftover"   -> "frames+values"   \* stopped in a callee while a list literal was half built
+    [] k = "asserthelper" -> "frames"        \* an assertion failed inside a helper the test called; more of the body is pending
 
 VARIABLES kinds,      \* body kind of test i
           filter,     \* 0 = no filter, i = "only test i", -1 = "only passing-kind names"
